@@ -215,14 +215,16 @@ class _Gen:
             m = abs(vnom[n["name"]]) or 1.0
             cur = lu(r, 1e-4, 2.0) if r.random() < 0.9 else lu(r, 1e-6, 20.0)
             n["_inom"] = cur
+            if r.random() < 0.04 and k != "RLoad":
+                cur = 0.0  # a load that draws nothing (pwr=0 / ii=0) is legal
             if k == "PLoad":
                 a["pwr"] = self._mag(sig(cur * m))
                 if r.random() < o["sleep"]:
-                    a["pwrs"] = self._mag(sig(abs(a["pwr"]) * lu(r, 1e-4, 0.1)))
+                    a["pwrs"] = self._mag(sig((abs(a["pwr"]) or 1e-3) * lu(r, 1e-4, 0.1)))
             elif k == "ILoad":
                 a["ii"] = self._mag(cur)
                 if r.random() < o["sleep"]:
-                    a["iis"] = self._mag(sig(cur * lu(r, 1e-4, 0.1)))
+                    a["iis"] = self._mag(sig((cur or 1e-3) * lu(r, 1e-4, 0.1)))
             else:
                 a["rs"] = self._mag(sig(m / cur))
         # bottom-up current estimate
@@ -316,6 +318,12 @@ class _Gen:
         if r.random() < 0.6:
             base = lu(r, 1e-6, 5e-3)
             n["args"]["ig"] = self._tab_or_const(n, "ig", base, m)
+            if n["kind"] == "LinReg" and r.random() < self.o.get("linreg_iq", 0.15):
+                ig = n["args"].pop("ig")  # the deprecated keyword iq is still documented
+                if isinstance(ig, dict):
+                    ig = dict(ig)
+                    ig["iq"] = ig.pop("ig")
+                n["args"]["iq"] = ig
 
     def _eff_param(self, n):
         r, o = self.r, self.o
@@ -336,6 +344,7 @@ class _Gen:
         r, o = self.r, self.o
         icen = lu(r, 1e-3, 1.0)
         nio = r.randint(2, 6)
+        single = r.random() < 0.08  # a 1-D table with a single point is legal (constant)
         lo = icen * r.uniform(0.02, 0.5)
         hi = icen * r.uniform(1.5, 8.0)
         ios = sorted(set(sig(lo * (hi / lo) ** (i / (nio - 1.0))) for i in range(nio)))
@@ -343,7 +352,9 @@ class _Gen:
             ios[0] = 0.0
         if len(ios) < 2:
             ios = [sig(lo), sig(hi * 2)]
-        two_d = r.random() < 0.5
+        two_d = r.random() < 0.5 and not single
+        if single:
+            ios = ios[:1]
         m = m or 1.0
         if two_d:
             nvi = r.randint(2, 4)
